@@ -247,6 +247,81 @@ theorem loop_nest_no_panic (isBreak : Bool) (n : Int) : ∃ r, nest3 isBreak n =
   simp only [hx]
   exact ⟨_, rfl⟩
 
+/-! ## variable-dereference depth (model of C07, `Model/Arith.lean`)
+
+`eval_expr_impl` re-enters itself through the *contents* of variables (`deref_lvalue` parses the
+string and evaluates it one level deeper, at most `MAX_VARIABLE_DEREF_DEPTH = 1024` levels).  The
+counter only protects the native stack if **every** path back into evaluation hands it on — also
+the evaluation of an array subscript, on the reading side (`deref_lvalue`) and on the assignment
+side (`assign`, `++`/`--`, `op=`).  In the model `eval`/`deref`/`assignT` pass `d` to the subscript;
+these theorems say what that buys: a dereference cycle that runs through a subscript is cut off
+with the declared error, from every entry point, for every parser and environment. -/
+
+section DerefDepth
+open BrushVerif.Arith
+
+variable (P : Str → Option Expr) (env : Env) (i a : Str)
+
+/-- `i="a[i]"; $((i))`: the cycle variable → subscript → variable ends with the declared
+recursion error at every starting depth (it never runs past the bound). -/
+theorem deref_depth_threads_through_subscripts
+    (hP : P (varStr env i) = some (.ref (.elem a (.ref (.var i))))) (d : Nat) :
+    eval P d env (.ref (.var i)) = (env, .err .recursion) := by
+  have key : ∀ k d, maxDepth ≤ d + k → eval P d env (.ref (.var i)) = (env, .err .recursion) := by
+    intro k
+    induction k with
+    | zero =>
+      intro d hd
+      rw [eval, deref, derefStr, hP]
+      simp only
+      rw [dif_pos (by omega)]
+    | succ k ih =>
+      intro d hd
+      by_cases hge : maxDepth ≤ d
+      · rw [eval, deref, derefStr, hP]
+        simp only
+        rw [dif_pos (by omega)]
+      · rw [eval, deref, derefStr, hP]
+        simp only
+        rw [dif_neg (by omega), eval, deref, ih (d + 1) (by omega)]
+  exact key maxDepth d (by omega)
+
+/-- the same cycle entered at the subscript: `$((a[i]))` -/
+theorem deref_cycle_entered_at_subscript
+    (hP : P (varStr env i) = some (.ref (.elem a (.ref (.var i))))) (d : Nat) :
+    eval P d env (.ref (.elem a (.ref (.var i)))) = (env, .err .recursion) := by
+  rw [eval, deref, deref_depth_threads_through_subscripts P env i a hP d]
+
+/-- … on the assignment side: `(( a[i] = v ))` evaluates the subscript under the same counter, and
+nothing is assigned -/
+theorem assign_subscript_depth_threads
+    (hP : P (varStr env i) = some (.ref (.elem a (.ref (.var i))))) (d : Nat) (v : Int64) :
+    eval P d env (.assign (.elem a (.ref (.var i))) (.lit v)) = (env, .err .recursion) := by
+  rw [eval, eval]
+  simp only
+  rw [assignT, deref_depth_threads_through_subscripts P env i a hP d]
+
+/-- … and for `a[i]++` / `a[i] op= e` (the target is read first, under the same counter) -/
+theorem incdec_subscript_depth_threads
+    (hP : P (varStr env i) = some (.ref (.elem a (.ref (.var i))))) (d : Nat) (op : IncOp) :
+    eval P d env (.incDec op (.elem a (.ref (.var i)))) = (env, .err .recursion) := by
+  rw [eval, deref, deref_depth_threads_through_subscripts P env i a hP d]
+
+theorem opassign_subscript_depth_threads
+    (hP : P (varStr env i) = some (.ref (.elem a (.ref (.var i))))) (d : Nat) (op : BinOp) (r : Expr) :
+    eval P d env (.opAssign op (.elem a (.ref (.var i))) r) = (env, .err .recursion) := by
+  rw [eval, deref, deref_depth_threads_through_subscripts P env i a hP d]
+
+end DerefDepth
+
+/-- non-vacuity: a parser and an environment with `i="a[i]"` -/
+private def cycP (s : Str) : Option Arith.Expr :=
+  if s = "a[i]".toList then some (.ref (.elem ['a'] (.ref (.var ['i'])))) else none
+
+example : Arith.eval cycP 0 [(['i'], .scalar "a[i]".toList)] (.ref (.var ['i'])) =
+    ([(['i'], .scalar "a[i]".toList)], .err .recursion) :=
+  deref_depth_threads_through_subscripts cycP _ ['i'] ['a'] (by decide) 0
+
 /-! ## arithmetic operators (model of C07, `Model/Arith.lean`) -/
 
 /-- every binary operator on every pair of `i64` yields a value or one of the two declared errors —
